@@ -1019,10 +1019,14 @@ func (vc *vCtx) assignedOuter(nodes []ast.Node) ([]string, error) {
 			return true
 		})
 	}
+	// canonical order of a state tuple: by type (slices of slices, slices, integers, booleans), then by declaration, so that
+	// swapping the declarations of two locals of different types does not change the shape of the translation
 	var out []string
-	for _, n := range vc.order {
-		if set[n] {
-			out = append(out, n)
+	for _, lt := range []string{"List (List Int)", "List Int", "Int", "Bool"} {
+		for _, n := range vc.order {
+			if set[n] && vc.vtype[n] == lt {
+				out = append(out, n)
+			}
 		}
 	}
 	return out, err
